@@ -1,6 +1,6 @@
 (* C18 -- obligations about irconv's helper expansion and constant folding as REGENERATED from /repo on this run (Gen_Macro.v). *)
 From Coq Require Import List String Bool ZArith.
-From RG.Load Require Import Macro.
+From RG.Load Require Import Macro MacroEnv.
 From RGW Require Import Gen_Macro.
 Import ListNotations.
 Local Open Scope string_scope.
@@ -10,6 +10,66 @@ Definition path_ok (p : string) : bool := existsb (fun x => String.eqb (fst (fst
 Definition str_args (p : string) : nat :=
   match find (fun x => String.eqb (fst (fst x)) p) gen_paths with Some x => snd (fst x) | None => 0 end.
 Definition gen_convert := convert path_ok str_args.
+(* the paths convertFilterExprImpl handles before it looks for a local helper *)
+Definition path_early (p : string) : bool :=
+  existsb (fun x => String.eqb (fst (fst x)) p && String.eqb (snd x) "call-early") gen_paths.
+Definition gen_convertE := convertE path_ok str_args path_early.
+Definition gen_inline := inline path_ok str_args path_early.
+Definition gen_conv_groups := conv_groups path_ok str_args path_early.
+
+(* the helper table is written in two places: emptied by convertRuleGroup, appended to by localDefine *)
+Lemma groupFuncs_writes : gen_groupFuncs_writes =
+  ["convertRuleGroup: conv.groupFuncs = conv.groupFuncs[:0]";
+   "localDefine: conv.groupFuncs = append(conv.groupFuncs, macro)"].
+Proof. reflexivity. Qed.
+
+(* ... and convertRuleGroup empties it before its statement loop *)
+Lemma reset_per_group : gen_reset_per_group = true.
+Proof. reflexivity. Qed.
+
+Lemma pinned_body_convertRuleGroup : gen_body_convertRuleGroup =
+  ["result := &ir.RuleGroup{ Line: conv.fset.Position(decl.Name.Pos()).Line, }";
+   "conv.group = result";
+   "conv.groupFuncs = conv.groupFuncs[:0]";
+   "result.Name = decl.Name.String()";
+   "if len(decl.Type.Params.List[0].Names) == 0 { panic(conv.errorf(decl.Type.Params.List[0], ""the matcher param should have a name"")) }";
+   "result.MatcherName = decl.Type.Params.List[0].Names[0].String()";
+   "if decl.Doc != nil { conv.convertDocComments(decl.Doc) }";
+   "seenRules := false";
+   "for _, stmt := range decl.Body.List { if assign, ok := stmt.(*ast.AssignStmt); ok && assign.Tok == token.DEFINE { conv.localDefine(assign) continue } if _, ok := stmt.(*ast.DeclStmt); ok { continue } stmtExpr, ok := stmt.(*ast.ExprStmt) if !ok { panic(conv.errorf(stmt, ""expected a %s method call, found %s"", result.MatcherName, goutil.SprintNode(conv.fset, stmt))) } call, ok := stmtExpr.X.(*ast.CallExpr) if !ok { panic(conv.errorf(stmt, ""expected a %s method call, found %s"", result.MatcherName, goutil.SprintNode(conv.fset, stmt))) } switch conv.matcherMethodName(call) { case ""Import"": if seenRules { panic(conv.errorf(call, ""Import() should be used before any rules definitions"")) } conv.doMatcherImport(call) default: seenRules = true conv.convertRuleExpr(call) } }";
+   "return result"].
+Proof. reflexivity. Qed.
+
+(* ConvertFile: one convertRuleGroup per matcher function, in order; equal-named groups are rejected *)
+Lemma pinned_body_ConvertFile : gen_body_ConvertFile =
+  ["result := &ir.File{ PkgPath: conv.pkg.Path(), }";
+   "conv.dslPkgname = ""dsl""";
+   "for _, imp := range f.Imports { importPath, err := strconv.Unquote(imp.Path.Value) if err != nil { panic(conv.errorf(imp, ""unquote %s import path: %s"", imp.Path.Value, err)) } if importPath == ""github.com/quasilyte/go-ruleguard/dsl"" { if imp.Name != nil { conv.dslPkgname = imp.Name.Name } } switch importPath { case ""fmt"", ""strings"", ""strconv"": conv.addCustomImport(result, importPath) } }";
+   "for _, decl := range f.Decls { funcDecl, ok := decl.(*ast.FuncDecl) if !ok { genDecl := decl.(*ast.GenDecl) if genDecl.Tok != token.IMPORT { conv.addCustomDecl(result, decl) } continue } if funcDecl.Body == nil { panic(conv.errorf(funcDecl, ""%s function has no body"", funcDecl.Name)) } if funcDecl.Name.String() == ""init"" { conv.convertInitFunc(result, funcDecl) continue } if conv.isMatcherFunc(funcDecl) { for i := range result.RuleGroups { if result.RuleGroups[i].Name == funcDecl.Name.String() { panic(conv.errorf(funcDecl.Name, ""duplicated rule group %s"", funcDecl.Name)) } } result.RuleGroups = append(result.RuleGroups, *conv.convertRuleGroup(funcDecl)) } else { conv.addCustomDecl(result, funcDecl) } }";
+   "return result"].
+Proof. reflexivity. Qed.
+
+(* ---------------------------------------------------------------- the correspondence run: a whole file, model against specification *)
+Definition FUEL := 80.
+Definition spec_rule (mname : string) (st : env) (w : dexpr) : option fexpr :=
+  match gen_inline mname st FUEL w with Some e' => gen_convert FUEL e' | None => None end.
+Fixpoint spec_stmts (mname : string) (st : env) (ss : list gstmt) : list (option fexpr) :=
+  match ss with
+  | [] => []
+  | GDef m :: ss' => spec_stmts mname (st ++ [m])%list ss'
+  | GRule w :: ss' => spec_rule mname st w :: spec_stmts mname st ss'
+  end.
+Definition ofexpr_eqb (a b : option fexpr) : bool :=
+  match a, b with Some x, Some y => fexpr_eqb x y | None, None => true | _, _ => false end.
+Fixpoint olist_eqb (l l' : list (option fexpr)) : bool :=
+  match l, l' with [], [] => true | x :: r, y :: r' => ofexpr_eqb x y && olist_eqb r r' | _, _ => false end.
+Definition is_none {A} (o : option A) : bool := match o with None => true | Some _ => false end.
+(* 0: some rule of the file is rejected; 1: every rule converts to the conversion of its inlined form;
+   2: converts to something else; 3: converts although the inlined form is rejected *)
+Definition file_verdict (gs : list group) : nat :=
+  let impl := List.concat (gen_conv_groups FUEL gen_reset_per_group [] gs) in
+  let spec := List.concat (map (fun g => spec_stmts (g_matcher g) [] (g_stmts g)) gs) in
+  if existsb is_none impl then 0 else if olist_eqb impl spec then 1 else if existsb is_none spec then 3 else 2.
 
 (* expandMacro: safe arguments only; astcopy; identifiers in expression position (not selected fields) named like a parameter
    are replaced by the unparenthesised argument; basic literals get their strconv value; the result is converted *)
@@ -22,7 +82,7 @@ Lemma pinned_body_expandMacro : gen_body_expandMacro =
    "return conv.convertFilterExpr(expanded.(ast.Expr))"].
 Proof. reflexivity. Qed.
 
-(* localDefine: a helper is a func literal with named params whose body is a single return of a bool expression *)
+(* localDefine: a helper is a non-variadic func literal with named params whose body is a single return of one bool expression *)
 Lemma pinned_body_localDefine : gen_body_localDefine =
   ["if len(assign.Lhs) != 1 || len(assign.Rhs) != 1 { panic(conv.errorf(assign, ""multi-value := is not supported"")) }";
    "lhs, ok := assign.Lhs[0].(*ast.Ident)";
@@ -33,9 +93,11 @@ Lemma pinned_body_localDefine : gen_body_localDefine =
    "typ := conv.types.TypeOf(fn).(*types.Signature)";
    "isBoolResult := typ.Results() != nil && typ.Results().Len() == 1 && typ.Results().At(0).Type() == types.Typ[types.Bool]";
    "if !isBoolResult { var loc ast.Node = fn.Type if fn.Type.Results != nil { loc = fn.Type.Results } panic(conv.errorf(loc, ""only funcs returning bool are supported"")) }";
+   "if typ.Variadic() { panic(conv.errorf(fn.Type.Params, ""variadic funcs are not supported"")) }";
    "if len(fn.Body.List) != 1 { panic(conv.errorf(fn.Body, ""only simple 1 return statement funcs are supported"")) }";
    "stmt, ok := fn.Body.List[0].(*ast.ReturnStmt)";
    "if !ok { panic(conv.errorf(fn.Body.List[0], ""expected a return statement, found %T"", fn.Body.List[0])) }";
+   "if len(stmt.Results) != 1 { panic(conv.errorf(stmt, ""expected a return statement with a result"")) }";
    "var params []string";
    "for _, field := range fn.Type.Params.List { if len(field.Names) == 0 { panic(conv.errorf(field, ""only named func params are supported"")) } for _, id := range field.Names { params = append(params, id.Name) } }";
    "macro := localMacroFunc{ name: lhs.Name, params: params, template: stmt.Results[0], }";
